@@ -3,6 +3,7 @@ package rules
 import (
 	"go/ast"
 	"go/token"
+	"regexp"
 	"sort"
 	"strings"
 
@@ -28,9 +29,79 @@ type grammarView struct {
 	tags     []string
 }
 
-func grammarOf(body *ast.BlockStmt, skipCond string) grammarView {
+// roleNames maps the local names of one reader function to role names, so that the comparison does not
+// depend on how a function calls its receiver, its end-of-text local or its token variable: the receiver
+// becomes `self`, a local initialised once with len(<recv>[.parser].s) becomes `ns`, a local of type
+// types.JsonState becomes `njs`.
+func roleNames(p *core.Program, fd *ast.FuncDecl) map[string]string {
+	m := map[string]string{}
+	recv := ""
+	if fd.Recv != nil && len(fd.Recv.List) == 1 && len(fd.Recv.List[0].Names) == 1 {
+		recv = fd.Recv.List[0].Names[0].Name
+		if recv != "self" {
+			m[recv] = "self"
+		}
+	}
+	bind := func(id *ast.Ident, init ast.Expr) {
+		if id == nil || id.Name == "_" {
+			return
+		}
+		if o := p.ObjectOf(id); o != nil && o.Type() != nil && strings.HasSuffix(o.Type().String(), "types.JsonState") {
+			if id.Name != "njs" {
+				m[id.Name] = "njs"
+			}
+			return
+		}
+		if init == nil {
+			return
+		}
+		if call, ok := ast.Unparen(init).(*ast.CallExpr); ok && len(call.Args) == 1 {
+			if f, ok := call.Fun.(*ast.Ident); ok && f.Name == "len" {
+				a := exprStr(call.Args[0])
+				if a == recv+".s" || a == recv+".parser.s" {
+					if id.Name != "ns" {
+						m[id.Name] = "ns"
+					}
+				}
+			}
+		}
+	}
+	ast.Inspect(fd.Body, func(n ast.Node) bool {
+		switch x := n.(type) {
+		case *ast.AssignStmt:
+			if x.Tok == token.DEFINE {
+				for i, l := range x.Lhs {
+					id, _ := l.(*ast.Ident)
+					var init ast.Expr
+					if len(x.Rhs) == len(x.Lhs) {
+						init = x.Rhs[i]
+					}
+					bind(id, init)
+				}
+			}
+		case *ast.ValueSpec:
+			for i, id := range x.Names {
+				var init ast.Expr
+				if len(x.Values) == len(x.Names) {
+					init = x.Values[i]
+				}
+				bind(id, init)
+			}
+		}
+		return true
+	})
+	return m
+}
+
+func grammarOf(body *ast.BlockStmt, skipCond string, roles map[string]string) grammarView {
 	gv := grammarView{switches: map[string][]string{}}
-	norm := func(e ast.Expr) string { return strings.ReplaceAll(exprStr(e), "self.parser.", "self.") }
+	norm := func(e ast.Expr) string {
+		s := exprStr(e)
+		for from, to := range roles {
+			s = regexp.MustCompile(`\b`+regexp.QuoteMeta(from)+`\b`).ReplaceAllString(s, to)
+		}
+		return strings.ReplaceAll(s, "self.parser.", "self.")
+	}
 	inputDep := func(s string) bool {
 		return strings.Contains(s, "self.s[") || strings.Contains(s, "self.p ") || strings.Contains(s, "njs.") || strings.Contains(s, " ns")
 	}
@@ -107,8 +178,8 @@ func runS4(c *core.Ctx) {
 		}
 		c.Analysed(core.FuncName(pk, a))
 		c.Analysed(core.FuncName(pk, b))
-		ga := grammarOf(a.Body, "self.skipValue")
-		gb := grammarOf(b.Body, "")
+		ga := grammarOf(a.Body, "self.skipValue", roleNames(c.Prog, a))
+		gb := grammarOf(b.Body, "", roleNames(c.Prog, b))
 		var diffs []string
 		// switches: every switch of the parser has a same-tag switch in the traverser with equal case sets
 		for _, tag := range ga.tags {
